@@ -161,8 +161,76 @@ def job(spec):
     return {'spec': [str(x) for x in spec], 'verdicts': verdicts, 'paths': len(res), 'queries': ex.queries + stats['q'], 'solver_s': ex.solver_s + stats['s'], 'inconclusive': list(ex.inconclusive), 'wall_s': time.time() - t0}
 
 
+def job_sites(spec):
+    """('sites',): every call of a placement strategy in the cluster crate (plan_deploy_group, the async deploy_group, failover, drain): the candidate
+    list is, structurally, `workers.values().filter(CLOSURE).collect()`, and CLOSURE — executed from its MIR on a symbolic worker and, where it
+    captures one, an arbitrary excluded worker id — accepts a worker only if is_available holds for it."""
+    t0 = time.time()
+    if C._MOD is None: C.load()
+    src_w = open(mirdump.crate_dir('cluster') + '/src/worker.rs').read()
+    verdicts = []; stats = {'q': 0, 's': 0.0}; inconclusive = []; queries = 0; solver_s = 0.0; sites = []
+    clo_index = {}
+    for f in C._MOD.funcs.values():
+        if '{closure#' in f.name and f.params:
+            mm = re.search(r'\{closure@[^}]*\}', f.params[0][1])
+            if mm: clo_index.setdefault(containers._norm_clo(mm.group(0)), f)
+    for f in C._MOD.funcs.values():
+        rawd = getattr(f, 'raw', None) or {}
+        raw = [x for lines in rawd.values() for x in lines]       # statements and terminators in block order
+        for ln, line in enumerate(raw):
+            m = re.search(r'as PlacementStrategy>::place\((?:move|copy) _\d+, (?:move|copy) _\d+, (?:move|copy) (_\d+)\)', line)
+            if not m: continue
+            if re.search(r'^(?:<impl at [^>]*lib\.rs[^>]*>|tests::)', f.name) or '::tests::' in f.name: continue
+            a = m.group(1); where = '%s (call %d)' % (re.sub(r'<impl at [^>]*>', 'Coordinator', f.name), len([s for s in sites if s[0] == f.name]) + 1)
+            def last_def(local, upto):
+                for k in range(upto - 1, -1, -1):
+                    mm = re.match(r'\s*%s = (.*)$' % re.escape(local), raw[k])
+                    if mm: return k, mm.group(1)
+                return None, None
+            k1, d1 = last_def(a, ln)
+            m1 = re.match(r'<Vec<&(?:worker::)?WorkerNode> as (?:std::ops::)?Deref>::deref\((?:copy|move) (_\d+)\)', d1 or '')
+            k2, d2 = last_def(m1.group(1), k1) if m1 else (None, None)
+            m2 = re.match(r'&(_\d+);', d2 or '')
+            k3, d3 = last_def(m2.group(1), k2) if m2 else (None, None)
+            m3 = re.match(r'<(?:std::iter::)?Filter<(?:std::collections::hash_map::)?Values<\'_, (?:worker::)?WorkerId, (?:worker::)?WorkerNode>, (\{closure@[^}]*\})> as Iterator>::collect::<Vec<&(?:worker::)?WorkerNode>>\(', d3 or '')
+            if not m3:
+                inconclusive.append('%s: the candidate list is not `workers.values().filter(..).collect()` any more (definition chain: %s / %s / %s)' % (where, (d1 or '?')[:80], (d2 or '?')[:40], (d3 or '?')[:120]))
+                continue
+            cf_ = clo_index.get(containers._norm_clo(m3.group(1)))
+            if cf_ is None:
+                inconclusive.append('%s: filter closure %s not found in the MIR dump' % (where, m3.group(1))); continue
+            sites.append((f.name, where, cf_))
+    if not sites: inconclusive.append('no placement call site found in the cluster crate')
+    ready = C.STATUSES.index('Ready')
+    for fname, where, cf_ in sites:
+        w, c = C.worker(0, src_w)
+        variants = dict(V.variants()); variants['WorkerStatus'] = list(C.STATUSES)
+        extra = [(r'^<&?(?:worker::)?WorkerId as PartialEq>::(eq|ne)$', lambda ex, st, callee, args: (C.idtok(args[0]) != C.idtok(args[1])) if callee.endswith('::ne') else (C.idtok(args[0]) == C.idtok(args[1])))]
+        hk = [(re.compile(p), f2) for p, f2 in extra + C.hooks()] + containers.container_hooks() + models.generic_hooks()
+        ex = Exec([C._MOD], hk, variants=variants, loop_bound=8, step_budget=100000)
+        ctext = '\n'.join(x for lines in cf_.raw.values() for x in lines)
+        ncap = len(set(re.findall(r'\(\*_1\)\.(\d+)', ctext)))
+        env = [box(box([V.StrTok(BitVec('excluded_id', 16))])) for _ in range(max(ncap, 0))]
+        st0 = State(roots={'ticks': 0, 'now': BitVecVal(0, 64), 'readings': []}); st0.path.assume(c)
+        res = ex.run(cf_, [box(env), box(box(w['struct']))], st=st0)
+        for v in discharge(ex, res, None, timeout_ms=30000):
+            verdicts.append({'name': v.name, 'status': v.status, 'secs': v.secs, 'kind': v.kind})
+        inconclusive += ['%s: %s' % (where, x) for x in ex.inconclusive]
+        queries += ex.queries; solver_s += ex.solver_s
+        avail = And(w['status'] == ready, ULT(w['cap']['pipelines_running'], w['cap']['max_pipelines']))
+        def wit(m, w=w, where=where):
+            g = lambda e: m.eval(e, True)
+            return {'site': where, 'status': C.STATUSES[min(g(w['status']).as_long(), 3)], 'running': g(w['cap']['pipelines_running']).as_long(), 'max': g(w['cap']['max_pipelines']).as_long()}
+        for r in res:
+            if r.status != 'return': continue
+            C.prove(list(r.path.pc), Implies(r.ret, avail), 'sites: the candidate filter of %s accepts available workers only' % where, wit, verdicts, stats)
+    return {'spec': [str(x) for x in spec], 'verdicts': verdicts, 'paths': len(sites), 'queries': queries + stats['q'], 'solver_s': solver_s + stats['s'], 'inconclusive': inconclusive, 'wall_s': time.time() - t0,
+            'sites': [s[1] for s in sites]}
+
+
 def _worker(spec):
     try:
+        if spec[0] == 'sites': return job_sites(spec)
         return job(spec)
     except Exception as e:
         import traceback; traceback.print_exc()
@@ -176,4 +244,5 @@ def tasks(tier):
         for order in orders:
             for affinity in ('none', 'some'):
                 out.append(('plan', n, order, affinity))
+    out.append(('sites',))
     return out
